@@ -132,6 +132,14 @@ pub fn insert_sys(world: &mut World, k: u8, e: Entity, key: u8)
     if ok.is_ok() { world.resource_mut::<H>().sys[k] = Some(SysId::new(e)); }
 }
 
+pub fn clear_sys(world: &mut World, k: u8)
+{
+    let Some(id) = world.resource::<H>().sys[k as usize % 4] else { return };
+    // not for a system that lives on a slot entity (clearing would strip the slot's own components)
+    if world.resource::<H>().slots.contains(&id.entity()) { return; }
+    if let Ok(mut em) = world.get_entity_mut(id.entity()) { em.clear(); }
+}
+
 pub fn kill_sys(world: &mut World, k: u8)
 {
     if let Some(id) = world.resource::<H>().sys[k as usize % 4] { world.despawn(id.entity()); }
@@ -162,7 +170,7 @@ pub fn gen_syscall(r: &mut Rng) -> Option<WOp>
     match r.below(14)
     {
         0 => Some(WOp::SpawnSys(r.below(4) as u8, r.below(NKEYS as u64) as u8)),
-        1 => Some(WOp::KillSys(r.below(4) as u8)),
+        1 => if r.chance(60) { Some(WOp::KillSys(r.below(4) as u8)) } else { Some(WOp::ClearSys(r.below(4) as u8)) },
         10 => Some(WOp::RevokeNamed(r.below(2) as u8, r.below(NKEYS as u64) as u8)),
         11 => Some(WOp::SpawnSysRc(r.below(4) as u8, r.below(NKEYS as u64) as u8)),
         12 => Some(WOp::DropSysRc(r.below(4) as u8)),
@@ -197,7 +205,7 @@ pub fn gen_callees(g: &mut dyn GenOps) -> Vec<Vec<Vec<Op>>>
             let n = g.rng().range(0, 3);
             let mut ops = g.plain_ops(n);
             // strip ops that would recurse into arbitrary syscalls
-            ops.retain(|o| !matches!(o, Op::CmdSyscall(..) | Op::Direct(WOp::Syscall(..)) | Op::Direct(WOp::SpawnSys(..)) | Op::Direct(WOp::KillSys(..)) | Op::Direct(WOp::RevokeNamed(..)) | Op::Direct(WOp::SpawnSysRc(..)) | Op::Direct(WOp::DropSysRc(..)) | Op::Direct(WOp::InsertSys(..)) | Op::Now(_)));
+            ops.retain(|o| !matches!(o, Op::CmdSyscall(..) | Op::Direct(WOp::Syscall(..)) | Op::Direct(WOp::SpawnSys(..)) | Op::Direct(WOp::KillSys(..)) | Op::Direct(WOp::ClearSys(..)) | Op::Direct(WOp::RevokeNamed(..)) | Op::Direct(WOp::SpawnSysRc(..)) | Op::Direct(WOp::DropSysRc(..)) | Op::Direct(WOp::InsertSys(..)) | Op::Now(_)));
             if g.rng().chance(50)
             {
                 let min = if g.rng().chance(35) { 0 } else { key + 1 };
@@ -207,6 +215,8 @@ pub fn gen_callees(g: &mut dyn GenOps) -> Vec<Vec<Vec<Op>>>
                 }
             }
             if g.rng().chance(25) { let k = g.rng().below(2) as u8; let v = g.rng().below(50) as u32; ops.push(Op::Direct(WOp::Syscall(SysKind::Spawned, k, v))); }
+            // a spawned system that strips or despawns itself (or another spawned system) during a call
+            if g.rng().chance(10) { let k = g.rng().below(4) as u8; ops.push(Op::Direct(if g.rng().chance(60) { WOp::ClearSys(k) } else { WOp::KillSys(k) })); }
             // re-entrancy on the callee's own key (documented: only the outer-most invocation's state persists)
             if g.rng().chance(25) { let n = g.rng().below(2) as u8; let v = g.rng().below(50) as u32; ops.push(Op::Direct(WOp::Syscall(SysKind::Named(n), key, v))); }
             if g.rng().chance(15) { let v = g.rng().below(50) as u32; ops.push(Op::Direct(WOp::Syscall(SysKind::Plain, key, v))); }
